@@ -21,6 +21,7 @@ import (
 	"sort"
 	"strings"
 
+	"github.com/opencontainers/go-digest"
 	ocispec "github.com/opencontainers/image-spec/specs-go/v1"
 	"oras.land/oras-go/v2/content/oci"
 )
@@ -347,9 +348,15 @@ func runC10(seed int64, tier string, sc *Script) map[string]any {
 				victim = mk("delete", u.Nodes[0], "", true, true)
 			}
 		case "saveindex":
-			prep = append(prep, mk("tag", u.Nodes[0], "unsaved", false, true))
+			// (the name is set, unsaved, by the victim process itself: see victimOps)
 			victim = mk("saveindex", nil, "", false, true)
 		case "gc":
+			// one manifest under several names: a collection keeps every name
+			if len(manifests) > 0 && si%2 == 1 {
+				m := manifests[rng.Intn(len(manifests))]
+				prep = append(prep, mk("tag", m, "also-a", true, true), mk("tag", m, "also-b", true, true))
+				sc.Count("gc:one-manifest-under-several-names")
+			}
 			victim = mk("gc", nil, "", true, true)
 		}
 		sc.Case("crash-" + vkind)
@@ -378,7 +385,12 @@ func runC10(seed int64, tier string, sc *Script) map[string]any {
 			panic("prepared layout invalid: " + before.Err)
 		}
 		opsFile := filepath.Join(tmp, "victim.json")
-		b, _ := json.Marshal([]crashOp{victim})
+		victimOps := []crashOp{victim}
+		if vkind == "saveindex" {
+			// a name the handle holds in memory only (no system call), then the save under test
+			victimOps = []crashOp{mk("tag", u.Nodes[0], "unsaved", false, true), victim}
+		}
+		b, _ := json.Marshal(victimOps)
 		os.WriteFile(opsFile, b, 0o644)
 		// un-injected run, traced
 		run := filepath.Join(tmp, "run")
@@ -430,6 +442,48 @@ func runC10(seed int64, tier string, sc *Script) map[string]any {
 			afterVerdict = after.Err
 		}
 		sc.Op(afterVerdict, "cr after op=%s", vkind)
+		// the name mapping before and after, computed from the operations themselves (not from
+		// what the implementation left): every name set in the preparation is there before;
+		// afterwards exactly the victim's own effect has been applied
+		want := map[string]string{}
+		for _, p := range prep {
+			if p.Op == "tag" && p.AutoSave {
+				want[p.Ref] = digest.FromBytes(p.Data).String() + "#" + p.Ann
+			}
+		}
+		showTags := func(m map[string]string) string {
+			var ks []string
+			for k, v := range m {
+				ks = append(ks, k+"="+v[7:15]+v[strings.IndexByte(v, '#'):])
+			}
+			sort.Strings(ks)
+			return strings.Join(ks, ",")
+		}
+		tv := "ok"
+		if !sameTags(before.Tags, want) {
+			tv = "names-before:" + showTags(before.Tags) + ",want:" + showTags(want)
+		}
+		sc.Op(tv, "cr beforetags op=%s", vkind)
+		for _, p := range victimOps[:len(victimOps)-1] {
+			want[p.Ref] = digest.FromBytes(p.Data).String() + "#" + p.Ann // written by the SaveIndex under test
+		}
+		switch victim.Op {
+		case "tag":
+			want[victim.Ref] = digest.FromBytes(victim.Data).String() + "#" + victim.Ann
+		case "untag":
+			delete(want, victim.Ref)
+		case "delete":
+			for k, v := range want {
+				if strings.HasPrefix(v, digest.FromBytes(victim.Data).String()+"#") {
+					delete(want, k)
+				}
+			}
+		}
+		tv = "ok"
+		if after.Err == "" && !sameTags(after.Tags, want) {
+			tv = "names-after:" + showTags(after.Tags) + ",want:" + showTags(want)
+		}
+		sc.Op(tv, "cr aftertags op=%s", vkind)
 		sc.Op(durable, "cr durable op=%s", vkind)
 		sc.Count("victim:" + vkind)
 		if len(pts) > 0 {
